@@ -476,6 +476,10 @@ class Rig:
             self.call(int(w[1]), "shutw", lambda: (c.shutdown_write(), "-")[1])
         elif k == "shut2":
             self.call(int(w[1]), "shut2", lambda: (c.shutdown(2), "-")[1])
+        elif k == "shut1":
+            self.call(int(w[1]), "shut1", lambda: (c.shutdown(1), "-")[1])
+        elif k == "shut0":
+            c.shutdown(0)
         elif k == "gate":
             self.resume(int(w[1]), "stmtgate")
         elif k == "psucc":
